@@ -30,17 +30,13 @@ fn algebra(term: &Sx, libs: &BTreeMap<String, Vec<String>>) -> Option<BTreeMap<S
         Some("only") => {
             let inner = algebra(v.get(1)?, libs)?;
             let ids = ids(&v[2..])?;
-            if ids.iter().any(|i| !inner.contains_key(i)) {
-                return None;
-            }
+            // an identifier the set does not contain selects nothing (an error by the report;
+            // generated only in cases marked lenient, which are judged only if accepted)
             Some(inner.into_iter().filter(|(k, _)| ids.contains(k)).collect())
         }
         Some("except") => {
             let inner = algebra(v.get(1)?, libs)?;
             let ids = ids(&v[2..])?;
-            if ids.iter().any(|i| !inner.contains_key(i)) {
-                return None;
-            }
             Some(inner.into_iter().filter(|(k, _)| !ids.contains(k)).collect())
         }
         Some("prefix") => {
@@ -122,6 +118,32 @@ struct GenC<'a> {
     rng: &'a mut Rng,
     libs: &'a BTreeMap<String, Vec<String>>,
     fresh: u32,
+    /// identifier lists may name something the set below does not contain
+    absent_ids: bool,
+    used_absent: bool,
+}
+
+impl<'a> GenC<'a> {
+    /// a name that the set under `inner` does not contain: one its rename has renamed away,
+    /// or one no library knows
+    fn absent_name(&mut self, inner: &Sx, names: &[String]) -> String {
+        if let Sx::List(v) = inner {
+            if v.first().and_then(|h| h.as_sym()) == Some("rename") {
+                let gone: Vec<String> = v[2..]
+                    .iter()
+                    .filter_map(|p| match p {
+                        Sx::List(p) => p[0].as_sym().map(|s| s.to_string()),
+                        _ => None,
+                    })
+                    .filter(|s| !names.contains(s))
+                    .collect();
+                if !gone.is_empty() {
+                    return self.rng.pick(&gone).clone();
+                }
+            }
+        }
+        "qq7".to_string()
+    }
 }
 
 impl<'a> GenC<'a> {
@@ -148,6 +170,11 @@ impl<'a> GenC<'a> {
                     let again = self.rng.pick(&ids).clone();
                     ids.push(again);
                 }
+                if self.absent_ids && self.rng.chance(1, 2) {
+                    let a = self.absent_name(&inner, &names);
+                    ids.push(a);
+                    self.used_absent = true;
+                }
                 self.rng.shuffle(&mut ids);
                 let mut v = vec![sym("only"), inner];
                 v.extend(ids.iter().map(|s| sym(s)));
@@ -155,6 +182,11 @@ impl<'a> GenC<'a> {
             }
             1 => {
                 let mut ids = self.subset(&names, false);
+                if self.absent_ids && self.rng.chance(1, 2) {
+                    let a = self.absent_name(&inner, &names);
+                    ids.push(a);
+                    self.used_absent = true;
+                }
                 self.rng.shuffle(&mut ids);
                 let mut v = vec![sym("except"), inner];
                 v.extend(ids.iter().map(|s| sym(s)));
@@ -224,30 +256,38 @@ fn generate_c(seed: u64, quick: bool) -> Value {
         libs.insert("(lt procs)".into(), PROC_EXPORTS.iter().map(|(e, _)| e.to_string()).collect());
     }
     let max_depth = if quick { 2 } else { 3 };
+    // one case in eight: only / except may name identifiers their set does not contain (an
+    // error by the report). Such a case is judged only if the implementation accepts the
+    // declaration; then absent names select and strike nothing
+    let lenient = rng.chance(1, 8);
+    let mut used_absent = false;
     let mut decl;
     let mut tries = 0;
     loop {
         tries += 1;
         let nsets = rng.pick_weighted(&[5, 3, 2]) + 1;
-        let mut g = GenC { rng: &mut rng, libs: &libs, fresh: 0 };
+        let mut g = GenC { rng: &mut rng, libs: &libs, fresh: 0, absent_ids: lenient, used_absent: false };
         let mut v = vec![sym("import")];
         for _ in 0..nsets {
             let d = g.rng.upto(max_depth + 1);
             v.push(g.term(d));
         }
         decl = list(v);
+        used_absent = g.used_absent;
         if declaration_bindings(&decl, &libs).is_some() || tries > 50 {
             break;
         }
     }
     if declaration_bindings(&decl, &libs).is_none() {
         decl = parse_one("(import (lt one))").unwrap();
+        used_absent = false;
     }
+    let lenient = lenient && used_absent;
     // sometimes a second declaration follows; it may well land on names the first one bound
     let mut decl2 = None;
-    if rng.chance(1, 3) {
+    if rng.chance(1, 3) && !lenient {
         for _ in 0..20 {
-            let mut g = GenC { rng: &mut rng, libs: &libs, fresh: 0 };
+            let mut g = GenC { rng: &mut rng, libs: &libs, fresh: 0, absent_ids: false, used_absent: false };
             let d = g.rng.upto(max_depth + 1);
             let cand = list(vec![sym("import"), g.term(d)]);
             if declaration_bindings(&cand, &libs).is_some() {
@@ -260,8 +300,8 @@ fn generate_c(seed: u64, quick: bool) -> Value {
     // exists nowhere. Whatever it did or did not bind, the declaration under test afterwards
     // gains exactly its own bindings
     let mut decl0 = None;
-    if rng.chance(1, 5) {
-        let mut g = GenC { rng: &mut rng, libs: &libs, fresh: 0 };
+    if rng.chance(1, 5) && !lenient {
+        let mut g = GenC { rng: &mut rng, libs: &libs, fresh: 0, absent_ids: false, used_absent: false };
         let d = g.rng.upto(2);
         let good = g.term(d);
         if algebra(&good, &libs).is_some() {
@@ -275,7 +315,8 @@ fn generate_c(seed: u64, quick: bool) -> Value {
     json!({
         "decl0": decl0,
         // the declaration is made by a library, which passes on everything it received
-        "through_library": rng.chance(1, 4),
+        "through_library": rng.chance(1, 4) && !lenient,
+        "lenient_ids": lenient,
         "decl2": decl2,
         "seed": seed,
         "hash_seeds": hash_seeds,
@@ -512,6 +553,9 @@ fn execute_c(case: &Value) -> RunResult {
     if case["decl0"].is_string() {
         res.count("probe.failing_declaration_first");
     }
+    if case["lenient_ids"].as_bool().unwrap_or(false) {
+        res.count("probe.identifier_list_names_an_absent_identifier");
+    }
     // model: the reference module system
     let mut m = Machine::new_empty();
     for (key, exports) in &libs {
@@ -632,6 +676,10 @@ fn execute_c(case: &Value) -> RunResult {
     } else {
         // verdict 1: observed == algebra
         match &first {
+            Err(e) if case["lenient_ids"].as_bool().unwrap_or(false) && !e.starts_with("panic/") => {
+                res.discarded = Some("the declaration names an identifier its set does not contain and the implementation refuses it (as the report allows)".into());
+                res.log.push(format!("not judged: {}", e));
+            }
             Err(e) => {
                 let sig = if e.starts_with("panic/") {
                     format!("C12/{}", e)
@@ -794,7 +842,7 @@ impl Engine for EngineC {
         vec![
             "the set algebra in sim/src/refint.rs + engine_c::algebra is the meaning of import sets".into(),
             "hash iteration order is the only run-to-run nondeterminism of an import; it is controlled through the interposed getrandom".into(),
-            "inadmissible declarations (unknown identifiers, colliding renames, one name bound to two values) are errors in R7RS and are not generated".into(),
+            "inadmissible declarations (colliding renames, one name bound to two values, renaming an unknown identifier) are errors in R7RS and are not generated; one case in eight lets only / except name an identifier their set does not contain - judged only if the implementation accepts the declaration (then such a name selects and strikes nothing), discarded if it refuses it".into(),
         ]
     }
     fn components(&self) -> Value {
